@@ -61,6 +61,7 @@ def three_site_configs(R=16):
 def cases(ctx):
     rng = ctx.rng
     yield from long_cases(ctx, rng)
+    yield from far_cases(ctx, rng)
     # structured: three-site planar configurations under the 8 symmetries and 3 embeddings
     for (A, B, C) in three_site_configs():
         for fy in (1, -1):
@@ -139,6 +140,18 @@ def long_cases(ctx, rng):
         yield {"kind": "longline", "n": n, "emb": emb, "bg": bg, "gv": i % 3 == 2}
 
 
+def far_cases(ctx, rng):
+    """large 2-D images whose background is a few pixels near a corner: every side is below 4096 (so a side squared stays below
+    2**24) but the squared distances, a sum over the axes, go beyond 2**24 -- exact in double, not in a single-precision buffer"""
+    shapes = [(4000, 1000), (1500, 3990), (3000, 3000), (2900, 2950), (4095, 700)]
+    for i in range(2 if ctx.tier == "quick" else 10):
+        H, W = rng.choice(shapes)
+        k = rng.choice([1, 2, 3])
+        corner = rng.choice([(0, 0), (0, W - 1), (H - 1, 0), (H - 1, W - 1)])
+        bg = sorted({(min(H - 1, max(0, corner[0] + rng.randint(-3, 3))), min(W - 1, max(0, corner[1] + rng.randint(-3, 3)))) for _ in range(k)})
+        yield {"kind": "farcorner", "H": H, "W": W, "bg": [list(b) for b in bg], "layout": rng.choice(["C", "C", "F"])}
+
+
 def brute(shape, fg):
     """exact squared EDT by definition; None where there is no background"""
     pos = list(itertools.product(*[range(s) for s in shape]))
@@ -171,6 +184,24 @@ def run_case(ctx, case):
                                         "background": case["pts"], "first_bad": bad[:3].tolist(),
                                         "got": [float(got[tuple(b)]) for b in bad[:3]], "want": [int(ref[tuple(b)]) for b in bad[:3]]})
         return Result(True, True, None, "three-sites/" + emb)
+    if kind == "farcorner":
+        H, W, bg = case["H"], case["W"], [tuple(b) for b in case["bg"]]
+        yy = np.arange(H, dtype=np.int64)[:, None]
+        xx = np.arange(W, dtype=np.int64)[None, :]
+        ref = np.min([(yy - by) ** 2 + (xx - bx) ** 2 for by, bx in bg], axis=0)      # exact integers below 2**25
+        a = np.ones((H, W), bool)
+        for by, bx in bg:
+            a[by, bx] = False
+        if case["layout"] == "F":
+            a = np.asfortranarray(a)
+        got = mh.distance(a)
+        if got.dtype != np.float64 or got.shape != (H, W) or not np.array_equal(got, ref.astype(np.float64)):
+            bad = np.argwhere(np.asarray(got, dtype=np.float64) != ref) if got.shape == (H, W) else []
+            b = tuple(int(v) for v in bad[0]) if len(bad) else None
+            return Result(False, True, {"why": "distance != exact squared Euclidean distance far from the background (values above 2**24)",
+                                        "shape": [H, W], "background": case["bg"], "dtype": str(got.dtype), "first_bad": b,
+                                        "got": float(got[b]) if b else None, "want": int(ref[b]) if b else None})
+        return Result(True, True, None, "dist/farcorner")
     if kind == "longline":
         n, bg = case["n"], case["bg"]
         shape = {"1n": (1, n), "n": (n,), "n11": (n, 1, 1), "n1": (n, 1)}[case["emb"]]
